@@ -139,3 +139,4 @@ class EagerBatcherInit(Unit):
 UNITS = [EagerBatcherIter, EagerBatcherInit]
 
 SCENARIOS = [('', 'replay/scenarios/c19_virtual_clock.py')]
+THOROUGH_SCENARIOS = [('', 'replay/scenarios/c19_virtual_clock.py', (s,), 300) for s in (1, 2, 3, 4, 5)]
